@@ -189,6 +189,7 @@ RetVerdicts(R, c, lineNo, tag) ==
          v |-> mk("C10", "first", [first |-> R.first, firstev |-> R.firstev])],
         [bad |-> ok /\ R.ismap /\ R.issues = <<>> /\ R.first # <<>>, v |-> mk("C10", "first-without-issue", R.first)],
         [bad |-> ok /\ ~R.sanok, v |-> mk("C10", "sanitize", R.issues)],
+        [bad |-> ok /\ ~R.inok, v |-> mk("C19", "input-modified", c.input)],
         \* C11: every issue names the type of the node it belongs to and has a message
         [bad |-> ok /\ \E k \in DOMAIN ri : /\ \E w \in RangeOf(ref) : w.path = ri[k].path /\ w.code = ri[k].code /\ w.ty # ri[k].ty
                                                /\ ~\E w2 \in RangeOf(ref) : w2.path = ri[k].path /\ w2.code = ri[k].code /\ w2.ty = ri[k].ty,
